@@ -1091,7 +1091,7 @@ Error query_rw_info(Arch arch, const BaseInst& inst, const Operand_* operands, s
 
           if (o0.is_segment_reg()) {
             out->_operands[0].reset(W, 2);
-            out->_operands[1].reset(R, 2);
+            out->_operands[1].reset(R | MibRead, 2);
             return Error::kOk;
           }
         }
